@@ -7,7 +7,7 @@ import re
 
 from ..cfg import cfg_of
 from ..model import AnalysisError, call_name, calls_in, dotted, norm, walk_no_nested
-from .. import inline, rules, sfdl
+from .. import inline, normal, rules, sfdl
 from .. import conds as cnd
 from . import c03
 
@@ -129,7 +129,7 @@ def check_generate(ctx):
         for c in n.calls:
             if isinstance(c.func, ast.Attribute) and c.func.attr == "append" and norm(c.func.value) in returned and c.args and isinstance(c.args[0], ast.Name) and c.args[0].id in tainted:
                 name_appends.append(n)
-    gcfg = cfg_of(gen.node)
+    gcfg = cfg_of(normal.normalised(ctx, gen))
     disc = [n for n in gcfg.nodes if n.kind == "test" and any(re.match(r"^len\(.*\) == 1$", t) for t, _ in cnd.canon(n.ast, True))]
     ctx.require(len(disc) >= 1, "generate: record-vs-array discriminator `len(...) == 1` not found")
     discounts = any("isinstance" in norm(d.ast) or "str" in norm(d.ast) for d in disc)
